@@ -117,4 +117,14 @@ def c05_2(c: Ctx) -> None:
         c.fail(u, f'extra suspension point on the inline branch: {n.text(80)}', 'the awaiting handler suspends before processing the awaited child', node=n.ast)
 
 
+
+@ob('C05.3', 'LOCKSET/CTX', 'while the awaiting handler (which holds the processing lock) is suspended inside the child\'s handlers, no other bus can start a handler: every '
+    'process_event site holds the one global lock, and no run-loop task starts with inherited lock ownership (same obligations as C06.1 and C06.3)')
+def c05_3(c: Ctx) -> None:
+    from .c06 import c06_1, c06_3
+
+    c06_1(c)
+    c06_3(c)
+
+
 OBLIGATIONS = ob.obs
